@@ -55,6 +55,10 @@ NEIGHBOUR_VOCAB = sorted({t for t in mutate.PY_VOCAB if t.strip() and "\n" not i
 
 
 FSTRING_FIELD_FORMS = ["f'{x! r}'", "f'{x ! r}'", "f'{x!\\tr}'", "f'''{x!\\nr}'''", "f'{x!r !s}'", "f'{x!}'", "f'{x! }'", "f'{x:{y:{z:{w}}}}'", "f'{x:{y:{z:{w:{v}}}}}'", "f'{a:{b}{c:{d:{e}}}}'", "f'{x:{y:{z:>{w}}}}'", "f'{f'{a:{b:{c:{d}}}}'}'", "f'{x:'}'", 'f"{x:"}"', "f'''{x:'''}'''", "f'{x=!}'", "f'{x=:{y:{z:{w}}}}'"]
+# an f-string nested in a field of another one, whose own spec holds its own quote (the inner literal ends there)
+FSTRING_FIELD_FORMS += [
+    "f\"{f'{a:'}'}\"", "f'{f\"{a:\"}\"}'", 'f"""{f"{a:"}"}"""', "f\"{x:{f'{a:'}'}}\"", "f\"{f'{a:{b:'}}'}\"", "f'''{f'{a:'}'}'''", "f\"{f'{a!r:'}'} {b}\"", "f\"{f'{a:>3'}'}\"",
+]
 # conversion names: every word of 1..3 letters over the valid letters (and some others): only 's', 'r', 'a' are conversions
 FSTRING_FIELD_FORMS += [t.replace("C", a + b + c) for a in ("s", "r", "a", "x", "S") for b in ("", "s", "r", "a") for c in ("", "a", "r") for t in ("f'{x!C}'", "f'{x!C:>4}'", "f'{x=!C}'", 'rf"""{x!C}"""')]
 
@@ -219,6 +223,15 @@ def search(rec, ctx):
     for lit in ctx.shard([p + q + body + q for p in ("b", "B", "rb", "Rb", "bR", "BR") for q in ("'", '"', "'''") for body in ("café", "é", "naïve\\n", "日本", "a\\x41é")]):
         for tmpl in ("x = {S}\n", "f({S}, 1)\n", "d = {{{S}: 1}}\n", "x = b'a' {S}\n", "match v:\n    case {S}: pass\n"):
             check(rec, {"src": tmpl.replace("{{", "\x00").replace("}}", "\x01").replace("{S}", lit).replace("\x00", "{").replace("\x01", "}"), "stream": "non-ascii-bytes", "near": True})
+
+    # pattern forms: atoms (among them the starred and double-starred ones, values that are no patterns, calls) in every
+    # wrapper a pattern can sit in -- which combinations are patterns is CPython's call
+    PATOMS = ["*r", "a", "1", "_", "'s'", "A()", "a.b", "-1", "1+2j", "{}", "[]", "()", "**r", "None", "f'x'", "a.b()", "-a", "1+2", "1j+1", "*_", "x=1", "a.b.c", "b's'", "1-2j", "-1j", "A(1, k=2)", "a as b", "1 as 2"]
+    PWRAPS = ["{P}", "({P})", "[{P}]", "({P},)", "[a, ({P})]", "A(({P}))", "({P}) | b", "({P}) as y", "{P} as y", "{P} | {P}", "{{'k': {P}}}", "A({P})", "A(k={P})", "{P}, {P}", "{P} if c", "[{P}, {P}]", "{{{P}: 1}}", "({P}, *s)", "A({P}, {P})", "{{'k': 1, {P}}}"]
+    for pa in ctx.shard(PATOMS):
+        for w in PWRAPS:
+            pat = w.replace("{{", "\x00").replace("}}", "\x01").replace("{P}", pa).replace("\x00", "{").replace("\x01", "}")
+            check(rec, {"src": f"match v:\n    case {pat}:\n        pass\n", "stream": "match-pattern-forms", "near": True})
 
     # every sequence of up to four clauses after 'try:' (which of them form a try statement is CPython's call)
     CLAUSES = ["except:", "except E:", "except E as e:", "except* E:", "else:", "finally:"]
